@@ -24,14 +24,8 @@ Definition field_rule (r : rule) (s : str) : str :=
   | RKebab => us_to_dash s
   | RScreamingKebab => us_to_dash (map upper s)
   end.
-(* apply_to_variant; SnakeCase puts an underscore before every upper-case letter but the first
-   character and lower-cases everything *)
-Fixpoint snake_go (first : bool) (s : str) : str :=
-  match s with
-  | [] => []
-  | c :: r => (if negb first && is_upper c then ["_"] else []) ++ lower c :: snake_go false r
-  end.
-Definition snake (s : str) : str := snake_go true s.
+(* apply_to_variant (snake: Model/C06Serde.v, an underscore before every upper-case letter but the
+   first character, everything lower-cased) *)
 Definition variant_rule (r : rule) (s : str) : str :=
   match r with
   | RPascal => s
@@ -114,8 +108,9 @@ Definition meta_text (m : meta) : str := tok_string (meta_tokens m).
 Definition has_upper (s : str) : bool := existsb is_upper s.
 Definition has_us (s : str) : bool := existsb is_us s.
 
-(* C06-1: enum variants are renamed with the FIELD rule (compute_field_name -> apply_to_field).
-   Exactly the (rule, identifier) pairs on which the two rules of case.rs differ. *)
+(* C06-1 (repaired by C06-1-variant-rule): enum variants used to be renamed with the FIELD rule.
+   rules_differ: the (rule, identifier) pairs on which the two rules of case.rs differ - kept as the
+   description of where the old behaviour was visible; no longer a class. *)
 Definition rules_differ (r : rule) (s : str) : bool :=
   match r with
   | RLower | RSnake | RKebab => has_upper s
@@ -124,27 +119,22 @@ Definition rules_differ (r : rule) (s : str) : bool :=
   | RCamel => has_us s
   | RScreamingSnake | RScreamingKebab => has_upper (tl s)
   end.
-Definition kf_variant_rule (c : container) : bool :=
-  negb (is_struct (c_kind c)) &&
-  match container_rule c with
-  | Some r => existsb (fun it => match rename_of it with None => negb (has_skip it) && rules_differ r (it_ident it) | Some _ => false end) (c_items c)
-  | None => false end.
 
-(* C06-2: a struct field without skip, one of whose attributes prints text containing the letters
+(* C06-2: a struct field or (since parse_enum filters with the same flag) enum variant without skip, one of whose attributes prints text containing the letters
    skip (skip_deserializing, default = <skip_me>, rename = <skipper> ...) and no skip_serializing:
-   the field is dropped *)
+   the item is dropped *)
 Definition group_skip_text (g : group) : bool :=
   negb (existsb is_mskip g) && existsb (fun m => contains (L "skip") (meta_text m)) g
   && negb (existsb (fun m => contains (L "skip_serializing") (meta_text m)) g).
 Definition kf_skip_text (c : container) : bool :=
-  is_struct (c_kind c) && existsb (fun it => negb (has_skip it) && existsb group_skip_text (it_attrs it)) (c_items c).
+  existsb (fun it => negb (has_skip it) && existsb group_skip_text (it_attrs it)) (c_items c).
 
-(* C06-3: a struct field whose every skip shares its attribute with text containing skip_serializing
-   (skip_serializing_if ...): the field is kept *)
+(* C06-3: a field or variant whose every skip shares its attribute with text containing skip_serializing
+   (skip_serializing_if ...): the item is kept *)
 Definition group_skip_seen (g : group) : bool :=
   existsb is_mskip g && negb (existsb (fun m => contains (L "skip_serializing") (meta_text m)) g).
 Definition kf_skip_beside (c : container) : bool :=
-  is_struct (c_kind c) && existsb (fun it => has_skip it && negb (existsb group_skip_seen (it_attrs it))) (c_items c).
+  existsb (fun it => has_skip it && negb (existsb group_skip_seen (it_attrs it))) (c_items c).
 
 (* C06-4: a rename value whose literal needs an escape (a quote or a backslash): the scanner stops
    at the first quote of the source text and never unescapes *)
@@ -158,12 +148,10 @@ Definition kf_rename_text (c : container) : bool :=
   existsb (fun it => existsb (fun m => match m with MRename _ => false | _ => contains (L "rename") (meta_text m) end)
                              (concat (it_attrs it))) (c_items c).
 
-(* C06-6: an enum variant carrying skip is still listed (parse_enum never looks at the flag) *)
-Definition kf_variant_skip (c : container) : bool :=
-  negb (is_struct (c_kind c)) && existsb has_skip (c_items c).
+(* C06-6 (repaired by C06-6-variant-skip): an enum variant carrying skip used to be listed. *)
 
 Definition kf_C06 (c : container) : bool :=
-  kf_variant_rule c || kf_skip_text c || kf_skip_beside c || kf_rename_escape c || kf_rename_text c || kf_variant_skip c.
+  kf_skip_text c || kf_skip_beside c || kf_rename_escape c || kf_rename_text c.
 
 (* ------------------------------------------------------------------ other attributes *)
 (* what serde reads of an item when every attribute other than rename and skip is erased *)
